@@ -31,6 +31,10 @@
 #include <typeinfo>
 #include <unistd.h>
 #include <sys/personality.h>
+#include <sys/select.h>
+#include <sys/prctl.h>
+#include <sys/wait.h>
+#include <functional>
 #include <vector>
 
 using namespace VATA;
@@ -41,6 +45,7 @@ using TA = ExplicitTreeAut;
 
 static string g_curId;
 static int g_timeout = 10;
+static int g_selTimeout = 2;   // budget of one forked call (algorithms that are exponential by design)
 
 static void onAlarm(int)
 {
@@ -186,18 +191,53 @@ static char inclOne(const TA& a, const TA& b, bool down, bool rec, bool opt, boo
 	catch (const std::exception&) { return 'E'; }
 }
 
+// runs f in a forked child with a time budget: its result, 'T' (budget overrun, child killed) or 'C' (child died)
+static char forked(const std::function<char()>& f, int secs)
+{
+	int fd[2];
+	if (pipe(fd) != 0) return 'C';
+	fflush(stdout);
+	unsigned rem = alarm(0);       // the case watchdog does not run while a budgeted child does
+	pid_t pid = fork();
+	if (pid == 0) {
+		close(fd[0]);
+		prctl(PR_SET_PDEATHSIG, SIGKILL);
+		signal(SIGALRM, SIG_DFL);
+		alarm(secs + 2);           // backstop: the child never outlives its budget
+		char c = f();
+		ssize_t r = write(fd[1], &c, 1);
+		(void)r;
+		_exit(0);
+	}
+	close(fd[1]);
+	fd_set rs;
+	FD_ZERO(&rs);
+	FD_SET(fd[0], &rs);
+	struct timeval tv;
+	tv.tv_sec = secs;
+	tv.tv_usec = 0;
+	char c = 'T';
+	int r = select(fd[0] + 1, &rs, nullptr, nullptr, &tv);
+	if (r > 0) { if (read(fd[0], &c, 1) != 1) c = 'C'; }
+	else kill(pid, SIGKILL);
+	close(fd[0]);
+	int st;
+	waitpid(pid, &st, 0);
+	alarm(rem);
+	return c;
+}
+
 static string opIncl(const vector<string>& a)
 {
 	TA A = buildTA(parseTA(a.at(0))), B = buildTA(parseTA(a.at(1)));
 	string v;
 	v += inclOne(A, B, false, false, false, false);
 	v += inclOne(A, B, false, false, false, true);
-	v += inclOne(A, B, true, false, false, false);
-	v += inclOne(A, B, true, false, false, true);
-	v += inclOne(A, B, true, true, false, false);
-	v += inclOne(A, B, true, true, false, true);
-	v += inclOne(A, B, true, true, true, false);
-	v += inclOne(A, B, true, true, true, true);
+	// the downward algorithms are exponential by design: each runs under its own budget ('T' = not judged)
+	for (int k = 0; k < 6; ++k) {
+		bool rec = k >= 2, opt = k >= 4, sim = k & 1;
+		v += forked([&]() { return inclOne(A, B, true, rec, opt, sim); }, g_selTimeout);
+	}
 	// default overload (no parameters)
 	char d;
 	try { d = TA::CheckInclusion(A, B) ? '1' : '0'; } catch (const std::exception&) { d = 'E'; }
@@ -219,23 +259,25 @@ static string opInclAll(const vector<string>& a)
 		ip.SetUseSimulation(w & 16);
 		ip.SetSearchOrder((w & 32) ? InclParam::e_search_order::breadth : InclParam::e_search_order::depth);
 		ip.SetEquivalence(w & 64);
-		char c;
-		try {
-			TA smaller(A), bigger(B);
-			AutBase::StateDiscontBinaryRelation simRel;
-			if (w & 16) {
-				StateType states = AutBase::SanitizeAutsForInclusion(smaller, bigger);
-				TA unionAut = TA::UnionDisjointStates(smaller, bigger);
-				SimParam sp;
-				sp.SetRelation((w & 2) ? SimParam::e_sim_relation::TA_DOWNWARD : SimParam::e_sim_relation::TA_UPWARD);
-				sp.SetNumStates(states);
-				simRel = unionAut.ComputeSimulation(sp);
-				ip.SetSimulation(&simRel);
+		auto call = [&]() -> char {
+			try {
+				TA smaller(A), bigger(B);
+				AutBase::StateDiscontBinaryRelation simRel;
+				if (w & 16) {
+					StateType states = AutBase::SanitizeAutsForInclusion(smaller, bigger);
+					TA unionAut = TA::UnionDisjointStates(smaller, bigger);
+					SimParam sp;
+					sp.SetRelation((w & 2) ? SimParam::e_sim_relation::TA_DOWNWARD : SimParam::e_sim_relation::TA_UPWARD);
+					sp.SetNumStates(states);
+					simRel = unionAut.ComputeSimulation(sp);
+					ip.SetSimulation(&simRel);
+				}
+				return TA::CheckInclusion(smaller, bigger, ip) ? '1' : '0';
 			}
-			c = TA::CheckInclusion(smaller, bigger, ip) ? '1' : '0';
-		}
-		catch (const NotImplementedException&) { c = 'N'; }
-		catch (const std::exception&) { c = 'E'; }
+			catch (const NotImplementedException&) { return 'N'; }
+			catch (const std::exception&) { return 'E'; }
+		};
+		char c = (w & 2) ? forked(call, g_selTimeout) : call();
 		v += c;
 	}
 	return "w=" + v;
@@ -310,25 +352,18 @@ static std::set<size_t> statesOf(const TAT& t)
 	return s;
 }
 
-// sim <A> <n> : A numbered inside 0..n-1
-static string opSim(const vector<string>& a)
+// simdown|simup <A> <n> : A numbered 0..n-1
+static string opSim(const vector<string>& a, bool up)
 {
 	TAT t = parseTA(a.at(0));
 	size_t n = toN(a.at(1));
 	TA A = buildTA(t);
 	std::set<size_t> used;
 	for (size_t q : A.GetUsedStates()) used.insert(q);
-	string out;
-	{
-		SimParam sp; sp.SetRelation(SimParam::e_sim_relation::TA_DOWNWARD); sp.SetNumStates(n);
-		try { out += "down=" + dumpRel(A.ComputeSimulation(sp), used); }
-		catch (const std::exception& e) { out += string("down=EXC"); }
-	}
-	{
-		SimParam sp; sp.SetRelation(SimParam::e_sim_relation::TA_UPWARD); sp.SetNumStates(n);
-		try { out += " up=" + dumpRel(A.ComputeSimulation(sp), used); }
-		catch (const std::exception& e) { out += string(" up=EXC"); }
-	}
+	SimParam sp;
+	sp.SetRelation(up ? SimParam::e_sim_relation::TA_UPWARD : SimParam::e_sim_relation::TA_DOWNWARD);
+	sp.SetNumStates(n);
+	string out = "rel=" + dumpRel(A.ComputeSimulation(sp), used);
 	return out + " A=" + dumpTA(A);
 }
 
@@ -425,7 +460,8 @@ static string runCase(const string& kind, const vector<string>& args)
 	if (kind == "trim") return opTrim(args);
 	if (kind == "cand") return opCand(args);
 	if (kind == "reduce") return opReduce(args);
-	if (kind == "sim") return opSim(args);
+	if (kind == "simdown") return opSim(args, false);
+	if (kind == "simup") return opSim(args, true);
 	if (kind == "compl") return opCompl(args);
 	if (kind == "rename") return opRename(args);
 	return "BADKIND";
@@ -444,6 +480,7 @@ int main(int argc, char** argv)
 		}
 	}
 	if (argc > 1) g_timeout = atoi(argv[1]);
+	if (argc > 2) g_selTimeout = atoi(argv[2]);
 	signal(SIGALRM, onAlarm);
 	std::ios::sync_with_stdio(true);
 	string line;
